@@ -4,7 +4,7 @@ from ..core import Failure
 
 PAIRS = [q + o for q in 'AE' for o in 'XFGUR']
 NAMINGS = ['int', 'str', 'revint', 'tuple', 'mixed']
-FORMS = ['obj', 'text', 'str', 'ctls']
+FORMS = ['obj', 'text', 'str', 'ctls', 'shared']
 
 
 def pairs_in(f, acc=None):
@@ -51,11 +51,81 @@ def compare(inp, exp, out):
     return Failure('ctl', inp, mc.show_mask(exp), mc.show(out), note)
 
 
-CHECKS = {'ctl': check_ctl}
+def deep_ctl(shape, k):
+    """Formulas nested k deep, as a program would build them (bounded response, guard chains)."""
+    P, Q = fm.P, fm.Q
+    f = P
+    for i in range(k):
+        if shape == 'AX':
+            f = ('A', ('X', f))
+        elif shape == 'EU-right':
+            f = ('E', ('U', Q, f))
+        elif shape == 'AU-left':
+            f = ('A', ('U', f, Q))
+        elif shape == 'or-EX':
+            f = ('or', Q, ('E', ('X', f)))
+        elif shape == 'and-AX':
+            f = ('and', ('not', Q), ('A', ('X', f)))
+        elif shape == 'not':
+            f = ('not', f)
+        elif shape == 'mixed':
+            f = [('E', ('X', f)), ('not', f), ('A', ('F', f)), ('E', ('G', f)), ('imp', Q, f), ('E', ('R', f, Q))][i % 6]
+        elif shape == 'imp-right':
+            f = ('imp', Q if i % 2 else P, f)
+        elif shape == 'and-left':
+            f = ('and', f, Q if i % 2 else ('E', ('X', P)))
+        else:
+            raise core.HarnessError('unknown shape %r' % (shape,))
+    return f
+
+
+DEEP_SHAPES = ['AX', 'EU-right', 'AU-left', 'or-EX', 'and-AX', 'not', 'mixed', 'imp-right', 'and-left']
+
+
+def check_deep(inp):
+    """CTL.modelcheck on a formula nested inp['k'] deep = the reference.  A RecursionError of the checker
+    (the interpreter's limit; the pinned tree hits it from about 140 levels) is not a wrong answer."""
+    K = inp['K']
+    f = deep_ctl(inp['shape'], inp['k'])
+    M = ref.Model(K)
+    exp = ref.ctl_eval(M, f)
+    out = call(K, f, inp.get('naming', 'int'), inp.get('how', 0), 'obj')
+    if out[0] == 'exc' and out[1] == 'RecursionError':
+        return 'recursion'
+    return compare(inp, exp, out)
+
+
+def deep_shard(st, shard, nshards, payload):
+    i = -1
+    for n, stride in payload['ks_scopes']:
+        for j, K in enumerate(km.scope_strided(n, stride) if n >= 4 else list(km.scope(n))[::stride]):
+            for shape in DEEP_SHAPES:
+                for k in payload['ks']:
+                    i += 1
+                    if i % nshards != shard:
+                        continue
+                    inp = {'K': K, 'shape': shape, 'k': k, 'naming': NAMINGS[j % len(NAMINGS)], 'how': j % 6}
+                    r = check_deep(inp)
+                    if r == 'recursion':
+                        st.bump('deep: checker hit the recursion limit (skipped)')
+                        continue
+                    st.evaluations += 1
+                    st.nontrivial += 1
+                    st.bump('deep: nesting >= %d' % (50 * (k // 50)))
+                    if j % 17 == 0 and k in (60, 100):
+                        st.sample(inp, cls='deep-' + shape)
+                    if r is not None:
+                        if st.failure is None:
+                            st.failure = r
+                        return
+
+
+CHECKS = {'ctl': check_ctl, 'deep': check_deep}
 
 
 def replay(ctx, rec):
-    return CHECKS[rec['check']](rec['input'])
+    r = CHECKS[rec['check']](rec['input'])
+    return None if r == 'recursion' else r
 
 
 def is_nontrivial(M, f, exp):
@@ -91,7 +161,7 @@ def enum_shard(st, shard, nshards, payload):
                     continue
                 exp = ref.ctl_eval(M, f, memo)
                 if fi not in objs:
-                    objs[fi] = fm.to_lib(f, L)
+                    objs[fi] = fm.to_lib(f, L, share={} if fi % 2 else None)
                 try:
                     res = L.modelcheck(kripke, objs[fi])
                     out = mc.normalise(res, back)
@@ -106,7 +176,7 @@ def enum_shard(st, shard, nshards, payload):
                     for ft in feats:
                         st.bump(ft)
                 if out != ('set', exp):
-                    inp = {'K': K, 'f': f, 'naming': naming, 'how': how, 'form': 'obj'}
+                    inp = {'K': K, 'f': f, 'naming': naming, 'how': how, 'form': 'shared' if fi % 2 else 'obj'}
                     fresh = check_ctl(inp)
                     if fresh is None:
                         st.add_extra('mismatch_only_with_reused_structure')
@@ -151,6 +221,8 @@ def minimise(f, check, valid=fm.ctl_state, key='f'):
 
     Only candidates that are still formulas of the property's domain (`valid`) are tried.
     """
+    if f.check == 'build' or key not in f.input:
+        return f                      # the structure could not even be built: nothing to minimise here
     inp = dict(f.input)
     best = f
 
@@ -254,6 +326,15 @@ def run(ctx):
     f = core.run_sharded(ctx, enum_shard, {'scopes': scopes})
     if f is not None:
         ctx.violation(minimise(f, check_ctl))
+        return
+
+    dp = {'ks': ctx.pick([15, 40, 100], [10, 25, 40, 60, 80, 100, 130]),
+          'ks_scopes': ctx.pick([(2, 11), (3, 1201)], [(1, 1), (2, 2), (3, 211), (4, 2000003)])}
+    ctx.scopes.append('nesting: 9 chain shapes (AX^k p, q or EX(..), E[q U ..], guard chains, mixed) at nesting %s on %s'
+                      % (dp['ks'], ', '.join('every %dth of S(%d)' % (s_, n_) for n_, s_ in dp['ks_scopes'])))
+    f = core.run_sharded(ctx, deep_shard, dp)
+    if f is not None:
+        ctx.violation(f)
         return
 
     f = core.run_random(ctx, random_shard, 4000, 40000)
